@@ -43,7 +43,7 @@ REQUIRED = {
     "vol_mass/vertex_sum": 20, "vol_mass/cells": 20, "vol_mass/option": 60,
     "conn_lap/vertices_hermitian": 50, "conn_lap/faces_hermitian": 50, "conn_lap/edges_hermitian": 50,
 }
-CASE_TIMEOUT = {"quick": 60.0, "thorough": 600.0}
+CASE_TIMEOUT = {"quick": 30.0, "thorough": 600.0}
 ASSUMPTIONS = [
     "surfaces are oriented manifold triangulations without unused vertices, every corner angle has sine >= 0.02 (else the case is skipped and noted)",
     "sign convention read from the code and the div-grad test: the Laplacian is the positive semi-definite stiffness matrix (positive diagonal)",
